@@ -8,5 +8,22 @@ Check (C02_soundness_partial :
 Check (C02_not_on_completing_event_refuted :
   ref_matches kf_negs None kf_steps kf_events = [[0; 1]%N] /\
   engine_stacks (mkCfg (compile kf_steps) kf_negs None 10 SDrop (mkLim 20 10)) engine0 kf_events = Some []).
+From Coq Require Import Permutation.
+From VP Require Import Sase.ProofsExactRef Sase.ProofsExactText.
+Check (C02_engine_is_per_start_greedy :
+  forall s0 rest0 negs part max_runs st lim evs,
+    Forall (fun s => st_all s = false) (s0 :: rest0) -> rest0 <> [] -> length evs <= max_runs ->
+    exists l, engine_stacks (mkCfg (compile (s0 :: rest0)) negs part max_runs st lim) engine0 evs = Some l /\
+              Permutation l (ref_e negs part s0 rest0 evs)).
+Check (C02_exact_outside_known_class :
+  forall s0 rest0 negs part max_runs st lim evs,
+    Forall (fun s => st_all s = false) (s0 :: rest0) -> rest0 <> [] -> length evs <= max_runs ->
+    known_c02 negs part s0 rest0 evs = false ->
+    exists l, engine_stacks (mkCfg (compile (s0 :: rest0)) negs part max_runs st lim) engine0 evs = Some l /\
+              Permutation l (ref_matches negs part (s0 :: rest0) evs)).
+Check (C02_known_class_contains_witness :
+  known_c02 kf_negs None (mkStep 1 None (Some 0%N) false) [mkStep 0 None None false] kf_events = true).
+Print Assumptions C02_engine_is_per_start_greedy.
+Print Assumptions C02_exact_outside_known_class.
 Print Assumptions C02_soundness_partial.
 Print Assumptions C02_not_on_completing_event_refuted.
